@@ -231,6 +231,44 @@ void run_case(Choices &c, Ctx &ctx)
 	o.retained_text = false;
 	TreeGen g(c, o);
 	Val tree = g.root();
+	if (c.coin(12))
+	{
+		// member names of 100..400 bytes
+		Val w = Val::obj();
+		for (size_t i = 0, n = 1 + c.pickn(3); i < n; i++)
+			w.set(std::string(c.range(100, 400), (char)('a' + i)) + str(i), i == 0 ? tree : Val::i64((int64_t)i));
+		tree = w;
+		ctx.label("long_member_name");
+	}
+	if (c.coin(10))
+	{
+		// a spine of 33..70 containers around the generated tree (deeper than the parser's default limit: built through the API)
+		size_t depth = (size_t)c.range(30, 70);
+		for (size_t d = 0; d < depth; d++)
+		{
+			if (c.coin(50))
+			{
+				Val a = Val::arr();
+				if (c.coin(30))
+					a.a.push_back(Val::i64((int64_t)d));
+				a.a.push_back(tree);
+				if (c.coin(30))
+					a.a.push_back(Val::null());
+				tree = a;
+			}
+			else
+			{
+				Val ob = Val::obj();
+				if (c.coin(30))
+					ob.set("before", Val::i64((int64_t)d));
+				ob.set("k" + str(d), tree);
+				if (c.coin(30))
+					ob.set("after", Val::arr());
+				tree = ob;
+			}
+		}
+		ctx.label("deep_spine");
+	}
 	size_t ncalls_est = tree.count_nodes() * 2;
 	if (ctx.mode == "single")
 	{
